@@ -165,11 +165,12 @@ def rtEvent (t : RtSt) (w : List String) : Option (RtSt × String) :=
 structure PrSt where
   p : Compio.Produced.St
   kind : String
-  iour : Bool
+  drv : String     -- "iour" | "poll" | "iour2" (io_uring with a 2-entry ring: completion queue overflow)
   conns : Nat      -- connections made by peers and not yet accepted
   peers : Nat
+  submitted : Bool
+  gone : Bool      -- the stream was dropped while it owned no op
 
-open Compio.Produced in
 def prUnit (t : PrSt) : Nat := if t.kind = "pipe" then 2 else 1
 
 def showPr (t : PrSt) (r : String) (x : Option Nat) : String :=
@@ -183,45 +184,74 @@ def prRun (t : PrSt) (evs : List Compio.Produced.Ev) : Option PrSt :=
 
 def isBlockingKind (k : String) : Bool := k = "open" || k = "socket" || k = "pipe"
 
+/-- every accept is a single-shot op whose success is terminal (polling driver) -/
+def singleShot (t : PrSt) : Bool := t.kind = "accept" || (t.kind = "multi" && t.drv = "poll")
+
 /-- what the driver does with the operation once the runtime is driven -/
 def prSettle (t : PrSt) : Option PrSt :=
   if t.p.inDriver && t.p.result.isNone then
     if t.p.cancelled then
       prRun t [.complete (isBlockingKind t.kind)]
-    else if t.kind = "accept" then
+    else if singleShot t then
       if t.conns > 0 then prRun { t with conns := t.conns - 1 } [.complete true] else some t
     else if t.kind = "multi" then
       prRun { t with conns := 0 } (List.replicate t.conns .shot)
     else prRun t [.complete true]
   else some t
 
+/-- first poll of a fresh op: the polling driver tries the accept at once -/
+def prArm (t : PrSt) : Option (PrSt × String) :=
+  if singleShot t && t.drv = "poll" && t.conns > 0 then
+    (prRun { t with conns := t.conns - 1 } [.pollImm true]).map fun t' => (t', showPr t' "ready-ok" none)
+  else (prRun t [.poll]).map fun t' => (t', showPr t' "pending" none)
+
 def prEvent (t : PrSt) (w : List String) : Option (PrSt × String) :=
   match w with
   | ["submit"] =>
-    if t.p.fut = .idle then
-      if t.kind = "accept" && !t.iour && t.conns > 0 then
-        (prRun { t with conns := t.conns - 1 } [.pollImm true]).map fun t' => (t', showPr t' "ready-ok" none)
-      else (prRun t [.poll]).map fun t' => (t', showPr t' "pending" none)
-    else none
+    if !t.submitted && t.p.fut = .idle then prArm { t with submitted := true } else none
   | ["connect"] =>
-    if (t.kind = "accept" || t.kind = "multi") && t.peers < 4 then
+    if (t.kind = "accept" || t.kind = "multi") && t.peers < (if t.drv = "iour2" then 16 else 4) then
       let t' := { t with conns := t.conns + 1, peers := t.peers + 1 }
       some (t', showPr t' "-" none)
     else none
   | ["settle"] =>
+    if t.drv = "iour2" then none else
     (prSettle t).map fun t' => (t', showPr t' "-" (some (t'.p.held.length * prUnit t')))
   | ["poll"] =>
-    if t.p.fut = .submitted then
-      if t.kind = "multi" then
-        if t.p.held.isEmpty then some (t, showPr t "pending" none)
+    if t.drv = "iour2" || t.gone || !t.submitted then none
+    else if t.kind = "multi" then
+      if t.p.fut = .ready then (prRun t [.rearm]).bind prArm
+      else if t.p.fut = .submitted then
+        if t.p.result.isSome && t.p.held.length ≤ 1 then
+          (prRun t [.poll]).map fun t' =>
+            (t', showPr t' (if t.p.result = some true then "ready-ok" else "ready-err") none)
+        else if t.p.held.isEmpty then some (t, showPr t "pending" none)
         else (prRun t [.popShot]).map fun t' => (t', showPr t' "ready-ok" none)
-      else
-        match t.p.result with
-        | none => some (t, showPr t "pending" none)
-        | some ok => (prRun t [.poll]).map fun t' => (t', showPr t' (if ok then "ready-ok" else "ready-err") none)
+      else none
+    else if t.p.fut = .submitted then
+      match t.p.result with
+      | none => some (t, showPr t "pending" none)
+      | some ok => (prRun t [.poll]).map fun t' => (t', showPr t' (if ok then "ready-ok" else "ready-err") none)
+    else none
+  | ["drain"] =>
+    -- io_uring with a tiny ring: every pending connection is accepted; the multishot op ends with a
+    -- terminal success somewhere in the burst and is re-armed
+    if t.drv = "iour2" && t.submitted && !t.gone && t.p.fut = .submitted && !t.p.cancelled then
+      let k := t.conns
+      let script : List Compio.Produced.Ev :=
+        if k = 0 then []
+        else List.replicate (k - 1) .shot ++ [.complete true] ++ List.replicate (k - 1) .popShot ++
+          [.poll, .rearm, .poll]
+      (prRun { t with conns := 0 } script).map fun t' =>
+        (t', showPr t' "-" (some (t'.p.held.length * prUnit t')))
     else none
   | ["drop"] =>
-    if t.p.fut = .submitted then (prRun t [.dropFut]).map fun t' => (t', showPr t' "-" none) else none
+    if t.gone || !t.submitted then none
+    else if t.p.fut = .submitted then (prRun t [.dropFut]).map fun t' => (t', showPr t' "-" none)
+    else if t.kind = "multi" && t.p.fut = .ready then
+      let t' := { t with gone := true }
+      some (t', showPr t' "-" none)
+    else none
   | _ => none
 
 def prEnd (t : PrSt) : String :=
@@ -264,9 +294,10 @@ def stepLine (m : Mode) (line : String) : Mode × String :=
       (.rt { s := s, helpers := [] }, showRt s "-")
     else (.none, "bad-op")
   | .none, ["prod", d, kind] =>
-    if (d = "iour" || d = "poll") &&
-        (kind = "accept" || (kind = "multi" && d = "iour") || isBlockingKind kind) then
-      (.pr { p := Compio.Produced.init, kind := kind, iour := d = "iour", conns := 0, peers := 0 }, "ok")
+    if ((d = "iour" || d = "poll") && (kind = "accept" || kind = "multi" || isBlockingKind kind)) ||
+        (d = "iour2" && kind = "multi") then
+      (.pr { p := Compio.Produced.init, kind := kind, drv := d, conns := 0, peers := 0, submitted := false,
+             gone := false }, "ok")
     else (.none, "bad-op")
   | .rt t, w =>
     match rtEvent t w with
